@@ -51,7 +51,7 @@ Theorem C38_with_pool : forall h pk f v,
   exists c, content_of f (fst (mrun h)) = Some c /\ NoDup (map fst c) /\ NoDup (map snd c).
 Proof.
   intros h pk f v Hf Hin. apply (distinct_ops_facts h pk f v); auto.
-  eapply Forall_impl; [|exact Hf]. intros [pk0 prev ops|pk0|m mh|]; cbn; auto.
+  eapply Forall_impl; [|exact Hf]. intros [pk0 prev ops|pk0|pk0|m mh|]; cbn; auto.
   intros [hops [limit [flt [st' H]]]]. eapply C38_pool_handout_good; eauto.
 Qed.
 
@@ -61,6 +61,19 @@ Theorem C38_too_old_refused : forall pk prev ops st m mh, m_last st = Some (m, m
 Proof.
   intros pk prev ops st m mh H Hlt. unfold make, prefer_empty. rewrite H.
   assert (E : (fst pk <? m - 1) = true) by now apply Z.ltb_lt. now rewrite E.
+Qed.
+
+(* A call during which the pool's SetProposal fails (MCallFail: write error, storage closed) hands out nothing new:
+   it changes nothing and answers "too old", the pool error, or the proposal already pooled for the position.
+   Such calls are steps of the histories of C38_same_proposal, so a failing pool never makes the node sign a second
+   proposal for a position. *)
+Theorem C38_pool_error_hands_out_nothing : forall pk st,
+  snd (make_fail pk st) = st /\
+  (fst (make_fail pk st) = RTooOld \/ fst (make_fail pk st) = RPoolErr \/
+   exists f v, fst (make_fail pk st) = RProp f v /\ by_point pk (m_pool st) = Some (f, v)).
+Proof.
+  intros pk st. destruct (make_fail_cases pk st) as [C|[C|[f [v [C B]]]]]; rewrite C; cbn [fst snd]; split; auto.
+  right; right. eauto.
 Qed.
 
 (* REFUTED once the pool's clean-up step is part of the history (open known finding
@@ -76,6 +89,11 @@ Proof.
 Qed.
 
 (* ---------------------------------------------------------------- non-vacuity *)
+
+Example C38_example_pool_error :
+  snd (mrun [MCallFail (11, 0%N); MMake (11, 0%N) 0%N [(1%N, 1%N)]; MCallFail (11, 0%N)]) =
+  [((11, 0%N), RPoolErr); ((11, 0%N), RProp ((11, 0%N), 0%N) 0%N); ((11, 0%N), RProp ((11, 0%N), 0%N) 0%N)].
+Proof. vm_compute. reflexivity. Qed.
 
 Example C38_example :
   snd (mrun [MMake (11, 0%N) 0%N [(1%N, 1%N); (2%N, 2%N)]; MSetLast 10 0%N; MMake (11, 0%N) 0%N [(3%N, 3%N)];
